@@ -74,6 +74,24 @@ Check search_all_and_only :
     forall i, In i (firstn c (skipn l sa)) <-> occurs t p i.
 Print Assumptions search_all_and_only.
 
+(* ... and the count is the number of occurrences *)
+Theorem search_count_exact :
+  forall t sa p l c, is_sa t sa -> search t sa p = (l, c) ->
+    c = length (filter (occursb t p) (seq 0 (length t))).
+Proof. exact search_count_exact_proof. Qed.
+Check search_count_exact :
+  forall t sa p l c, is_sa t sa -> search t sa p = (l, c) ->
+    c = length (filter (occursb t p) (seq 0 (length t))).
+Print Assumptions search_count_exact.
+
+(* compression::suffix_array's copy of the search loops returns the same range (non-empty pattern) *)
+Theorem wrapper_search_same :
+  forall t sa p, p <> [] -> w_find_pattern_range t sa p = search_range t sa p.
+Proof. exact wrapper_search_same_proof. Qed.
+Check wrapper_search_same :
+  forall t sa p, p <> [] -> w_find_pattern_range t sa p = search_range t sa p.
+Print Assumptions wrapper_search_same.
+
 (* Kasai as written (no reset of h at rank 0): the exact LCP array, for every text *)
 Theorem kasai_correct : forall t sa, is_sa t sa -> kasai t sa = Some (lcp_spec t sa).
 Proof. exact kasai_correct_proof. Qed.
